@@ -681,6 +681,11 @@ func (fr *Frame) applyContract(st *State, ct *FnContract, callee *ssa.Function, 
 		st.Comp["g:lastnow|"+c.sortOf(sig.Results().At(0).Type())] = res[0]
 	}
 	for _, cl := range ct.Ensures {
+		if aboutCalleeEvents(cl.E, ct) {
+			// counters, recorded values and select outcomes in a postcondition are the callee's own events, counted from
+			// its entry: in the caller the same names denote the caller's events. Such a clause tells the caller nothing.
+			continue
+		}
 		gv, ok := post.tryEval(cl.E)
 		if !ok || !(gv.K == "bool" || (gv.Ty != nil && isBool(gv.Ty))) {
 			// a postcondition phrased over values only the callee records: not available to this caller (assuming less is sound)
